@@ -10,7 +10,7 @@ CLAIMS = {
   note="Lean kernel; axioms propext/Classical.choice/Quot.sound only. Hand-written model of ops.rs (loops, pivot arithmetic, casts) validated by the correspondence run on a 64-bit host; rustc integer semantics trusted. The generator-side codec selection is covered by the facts check of C06.",
   technique="Lean 4 proof (loop invariants, omega) + differential correspondence model vs real code", ref="3.1"),
  "C02": dict(
-  text="Lean 4 theorems (DDV.Props.C02): load(store v) = v reduced to the field width (full statement for unsigned carriers; the signed clause is kept as the full statement LoadStoreSignedFull, proved false of the current tree by a counterexample theorem (finding F1) and proved under the exact excluding hypothesis), store isolation for every set-bit outside the range, reads depend only on the range, and the setter-history theorem by induction over arbitrary call sequences. Differential correspondence as for C01 plus random setter histories.",
+  text="Lean 4 theorems (DDV.Props.C02): load(store v) = v reduced to the field width (full statement for unsigned carriers; the signed clause is kept as the full statement LoadStoreSignedFull, proved false of the current tree by a counterexample theorem (finding F1) and proved under the exact excluding hypothesis), store isolation for every set-bit outside the range, reads depend only on the range, and the setter-history theorem by induction over arbitrary call sequences. Differential correspondence as for C01 plus random setter histories; generator half: in generated field sets (four syntaxes) the getter and setter of every field name the same codec family, byte order, range and carrier, equal to the declared layout.",
   note="As C01. The spec verdict for signed fields (two's-complement reading) is computed independently by the driver; F1 is listed in known_findings.json with a class predicate.",
   technique="Lean 4 proof (round-trip/isolation/history induction) + differential correspondence", ref="3.2"),
  "C03": dict(
@@ -22,7 +22,7 @@ CLAIMS = {
   note="rustc's async lowering, waker contract and cancellation are outside the model; FieldSet impls in the harness are hand-written; the reset-constructor plumbing of generated code is covered under C08.",
   technique="Lean 4 proof (interaction trees, poll-machine refinement) + differential correspondence", ref="3.5"),
  "C09": dict(
-  text="Lean 4 theorems (DDV.Props.C09): for all four command shapes, every closure and interface answer, dispatch makes exactly one interface call with the five prescribed arguments and returns exactly what the interface wrote (or its error); dispatch_async equals dispatch under every suspension pattern. Differential correspondence against the real CommandOperation over 36 (in,out) type combinations.",
+  text="Lean 4 theorems (DDV.Props.C09): for all four command shapes, every closure and interface answer, dispatch makes exactly one interface call with the five prescribed arguments and returns exactly what the interface wrote (or its error); dispatch_async equals dispatch under every suspension pattern. Differential correspondence against the real CommandOperation over 36 (in,out) type combinations; generator half: commands in every shape (no side, size without fields, zero size, basic form, refs) through the real generator and the model, with an oracle for the unit-type selection (unit type exactly on the sides that declare no fields).",
   note="As C05. Shape selection by the generator (unit type for absent field sets) is checked with the generator facts (C04/C19).",
   technique="Lean 4 proof (interaction trees) + differential correspondence", ref="3.9"),
  "C10": dict(
@@ -76,8 +76,8 @@ CLAIMS = {
   note=COMMON_NOTE + " The concrete parsers are exercised through rendered text, not modelled; per-syntax integer ranges (TOML/YAML i64, JSON u64, DSL u128) are modelled.",
   technique="Lean 4 proof (equality of the two front-end lowerings on the common fragment) + four-way differential run", ref="3.16"),
  "C17": dict(
-  text="Lean 4 theorems (DDV.Props.C17) over a table regenerated from the source on every run (marker types, ReadCapability / WriteCapability impls, the capability bounds of every public operation and embedded-io trait impl): operation_available_iff (decide over 5 markers x 24 operations: read ops iff readable, write ops iff writable, modify iff both), rc_co_offer_nothing, every_operation_classified / every_listed_operation_exists; field_getter_setter_iff and effective_register_access over the generator model. Correspondence: access markers and getter / setter presence in generated facts at global / object / ref-override / field level.",
-  note=COMMON_NOTE + " Trait resolution itself is rustc's; the table translator (tools/extract.py, regex based) is trusted.",
+  text="Lean 4 theorems (DDV.Props.C17) over a table regenerated from the source on every run (marker types, ReadCapability / WriteCapability impls, the capability bounds of every public operation and embedded-io trait impl): operation_available_iff (decide over 5 markers x 24 operations: read ops iff readable, write ops iff writable, modify iff both), rc_co_offer_nothing, every_operation_classified / every_listed_operation_exists; field_getter_setter_iff and effective_register_access over the generator model. Correspondence: access markers and getter / setter presence in generated facts at global / object / ref-override / field level; the 5 x 24 availability matrix is also decided by rustc itself (harness bin ddv-caps: inherent method vs blanket fallback, trait-impl presence by autoref specialisation) and compared with the extracted table and with the property's matrix.",
+  note=COMMON_NOTE + " Trait resolution is rustc's (observed through ddv-caps); the regex translator tools/extract.py is cross-checked against it.",
   technique="Lean 4 proof by decide over a table extracted from source + differential correspondence", ref="3.17"),
  "C19": dict(
   text="No formal Rust type system is available, so this is decided in two layers. Proved in Lean (DDV.Props.C19): necessary well-formedness facts of the emitted items — accessors refer to field-set types that are emitted under exactly that name, command accessors use the unit type exactly for absent field lists, discriminants of accepted cfg-free enums are pairwise distinct, Debug impls only call getters that exist when all fields are readable (the full statement is false: finding F11). Checked by execution: every accepted cfg-free definition of the documented language the harness generates is compiled with rustc (#![no_std], against /repo/device-driver); accessor existence is checked on the facts. The check reported the genuine defect F17 (negative stride literal in read_all_registers), repaired by a fix: commit, and records F11, F13, F15.",
